@@ -84,6 +84,45 @@ pub fn search(seed: u64) -> String {
     let mut cases = 0u64;
     let mut skipped = 0u64;
     let divisors: [u64; 8] = [3, 5, 15, 17, 51, 85, 255, 257]; // divisors of 2^32-1: products landing exactly on the cap
+    // ---- products that overflow 64 bits: large operands (multiply-like and concat-like cost functions) with the
+    // largest multipliers; NEW_COST_MODEL must fail (the pre-hard-fork model is the known-finding class F2, skipped)
+    for (l0, l1) in [(524288usize, 524290usize), (1 << 20, 1 << 20), (1 << 21, 3), (70000, 70000)] {
+        for m in [0x7fede126u32, 0x7fffffff, 0xfeffffff, 0x80000000, 0x00ffffff, 0x3fffffff] {
+            for cf in [1u8, 2, 3] {
+                let mut op2: Vec<u8> = m.to_be_bytes().to_vec();
+                op2.push(cf << 6);
+                let mut a = Allocator::new();
+                let n0 = a.new_atom(&vec![0x55u8; l0]).unwrap();
+                let n1 = a.new_atom(&vec![0x66u8; l1]).unwrap();
+                let nil = a.nil();
+                let t = a.new_pair(n1, nil).unwrap();
+                let args = a.new_pair(n0, t).unwrap();
+                let lens = vec![Some(l0), Some(l1)];
+                for new_model in [false, true] {
+                    for max_cost in [u64::MAX, 11_000_000_000] {
+                        let (want, f2) = spec(&op2, &lens, max_cost, new_model);
+                        if f2 {
+                            skipped += 1;
+                            continue;
+                        }
+                        let o = a.new_atom(&op2).unwrap();
+                        let flags = if new_model { ClvmFlags::NEW_COST_MODEL } else { ClvmFlags::empty() };
+                        let got = op_unknown(&mut a, o, args, max_cost, flags);
+                        cases += 1;
+                        let ok = match (&got, &want) {
+                            (Ok(r), Want::Ok(c)) => r.0 == *c && a.atom_len(r.1) == 0,
+                            (Err(_), Want::Fail) => true,
+                            _ => false,
+                        };
+                        if !ok {
+                            let got_s = match &got { Ok(r) => format!("Ok(cost {})", r.0), Err(e) => format!("Err({e})") };
+                            return format!("{{\"found\":true,\"finder\":\"unknown-op\",\"opcode\":\"{}\",\"arg_sizes\":[\"{l0}\",\"{l1}\"],\"max_cost\":{max_cost},\"new_cost_model\":{new_model},\"observed\":\"{got_s}\",\"expected\":\"{want:?}\"}}", hex(&op2));
+                        }
+                    }
+                }
+            }
+        }
+    }
     for round in 0..60_000u64 {
         let mut a = Allocator::new();
         // opcode
@@ -175,6 +214,49 @@ pub fn search(seed: u64) -> String {
                 let lens_s: Vec<String> = lens.iter().map(|l| l.map(|x| x.to_string()).unwrap_or("pair".to_string())).collect();
                 return format!("{{\"found\":true,\"finder\":\"unknown-op\",\"opcode\":\"{}\",\"arg_sizes\":[{}],\"max_cost\":{max_cost},\"new_cost_model\":{new_model},\"observed\":\"{got_s}\",\"expected\":\"{want:?}\"}}",
                     hex(&op2), lens_s.iter().map(|s| format!("\"{s}\"")).collect::<Vec<_>>().join(","));
+            }
+        }
+    }
+    // ---- routing: the opcodes next to the two assigned 4-byte secp opcodes (same multiplier bytes, other cost-function
+    // / low bits) and next to the flag-gated one-byte opcodes are UNASSIGNED: the dialect must treat them like op_unknown
+    {
+        use clvmr::chia_dialect::ChiaDialect;
+        use clvmr::dialect::{Dialect, OperatorSet};
+        let mut ops: Vec<Vec<u8>> = vec![];
+        for low in 1u8..=0x3f {
+            ops.push(vec![0x13, 0xd6, 0x1f, low]);
+            ops.push(vec![0x1c, 0x3a, 0x8f, low]);
+        }
+        for hi in [0x40u8, 0x80, 0xc0] {
+            ops.push(vec![0x13, 0xd6, 0x1f, hi]);
+            ops.push(vec![0x1c, 0x3a, 0x8f, hi | 1]);
+        }
+        ops.push(vec![0x13, 0xd6, 0x1e, 0x00]);
+        ops.push(vec![0x00, 0x13, 0xd6, 0x1f, 0x00]);
+        for flags in [ClvmFlags::empty(), ClvmFlags::NEW_COST_MODEL] {
+            for op in ops.iter() {
+                for nargs in [0usize, 1, 3] {
+                    let mut a = Allocator::new();
+                    let o = a.new_atom(op).unwrap();
+                    let mut args = a.nil();
+                    for i in 0..nargs {
+                        let x = a.new_atom(&vec![0x11u8; 3 + i]).unwrap();
+                        args = a.new_pair(x, args).unwrap();
+                    }
+                    cases += 1;
+                    let d = ChiaDialect::new(flags);
+                    let got = d.op(&mut a, o, args, 11_000_000_000, OperatorSet::Default);
+                    let want = op_unknown(&mut a, o, args, 11_000_000_000, flags);
+                    let same = match (&got, &want) {
+                        (Ok(x), Ok(y)) => x.0 == y.0 && a.atom_len(x.1) == 0,
+                        (Err(_), Err(_)) => true,
+                        _ => false,
+                    };
+                    if !same {
+                        let f = |r: &clvmr::reduction::Response| match r { Ok(r) => format!("Ok(cost {})", r.0), Err(e) => format!("Err({e})") };
+                        return format!("{{\"found\":true,\"finder\":\"unknown-op routing\",\"opcode\":\"{}\",\"args\":{nargs},\"new_cost_model\":{},\"observed\":\"ChiaDialect::op gives {}\",\"expected\":\"the unknown-operator rule: {}\"}}", hex(op), flags.contains(ClvmFlags::NEW_COST_MODEL), f(&got), f(&want));
+                    }
+                }
             }
         }
     }
